@@ -95,6 +95,16 @@ theorem unaO_er (una : U32) (l : List SegO) (g : Ghost) :
     · rw [ih]; rfl
     · rfl
 
+theorem dropAckedO_er (l : List SegO) (g : Ghost) : er (dropAckedO l g).l = dropAcked (er l) := by
+  induction l generalizing g with
+  | nil => rfl
+  | cons x rest ih =>
+    rw [er_cons]
+    unfold dropAckedO dropAcked
+    split
+    · exact ih _
+    · rfl
+
 theorem ackLoopO_er (sn : U32) (l : List SegO) (g : Ghost) : er (ackLoopO sn l g).l = ackLoop sn (er l) := by
   induction l generalizing g with
   | nil => rfl
@@ -319,13 +329,26 @@ theorem flushO_sync {o : KcpO} (h : Sync o) (full : Bool) (now : U32) : Sync (fl
 
 /-! ### Input: the model's loop body, queue by queue -/
 
+theorem shrinkBuf_queues (k : Kcp) :
+    (shrinkBuf k).snd_queue = k.snd_queue ∧ (shrinkBuf k).snd_buf = dropAcked k.snd_buf ∧
+    (shrinkBuf k).rcv_buf = k.rcv_buf ∧ (shrinkBuf k).rcv_queue = k.rcv_queue := by
+  unfold shrinkBuf
+  split
+  · rename_i h; exact ⟨rfl, h.symm, rfl, rfl⟩
+  · rename_i h; exact ⟨rfl, h.symm, rfl, rfl⟩
+
 theorem inSt1_queues (regular : Bool) (wnd : BitVec 16) (una : U32) (m : InLoop) :
     (inSt1 regular wnd una m).k.snd_queue = m.k.snd_queue ∧
-    (inSt1 regular wnd una m).k.snd_buf = m.k.snd_buf.drop (unaCount una m.k.snd_buf) ∧
+    (inSt1 regular wnd una m).k.snd_buf = dropAcked (m.k.snd_buf.drop (unaCount una m.k.snd_buf)) ∧
     (inSt1 regular wnd una m).k.rcv_buf = m.k.rcv_buf ∧
     (inSt1 regular wnd una m).k.rcv_queue = m.k.rcv_queue := by
-  unfold inSt1 parseUna shrinkBuf
-  cases regular <;> simp only [] <;> split <;> simp_all
+  unfold inSt1
+  simp only []
+  obtain ⟨h1, h2, h3, h4⟩ := shrinkBuf_queues
+    (parseUna (if regular = true then { m.k with rmt_wnd := wnd.setWidth 32 } else m.k) una).1
+  rw [h1, h2, h3, h4]
+  unfold parseUna
+  cases regular <;> exact ⟨rfl, rfl, rfl, rfl⟩
 
 theorem parseAck_queues (k : Kcp) (sn : U32) :
     (parseAck k sn).snd_queue = k.snd_queue ∧ (parseAck k sn).rcv_buf = k.rcv_buf ∧
@@ -347,16 +370,29 @@ theorem parseFastack_queues (k : Kcp) (sn ts : U32) :
 theorem inAck_queues (m1 : InLoop) (sn ts : U32) :
     (inAck m1 sn ts).k.snd_queue = m1.k.snd_queue ∧ (inAck m1 sn ts).k.rcv_buf = m1.k.rcv_buf ∧
     (inAck m1 sn ts).k.rcv_queue = m1.k.rcv_queue ∧
-    (inAck m1 sn ts).k.snd_buf.length = m1.k.snd_buf.length := by
-  obtain ⟨a1, a2, a3, a4⟩ := parseAck_queues m1.k sn
-  obtain ⟨f1, f2, f3, f4⟩ := parseFastack_queues (parseAck m1.k sn) sn ts
+    (inAck m1 sn ts).k.snd_buf.length = (dropAcked (parseAck m1.k sn).snd_buf).length := by
+  obtain ⟨a1, a2, a3, _⟩ := parseAck_queues m1.k sn
+  obtain ⟨b1, b2, b3, b4⟩ := shrinkBuf_queues (parseAck m1.k sn)
+  obtain ⟨f1, f2, f3, f4⟩ := parseFastack_queues (shrinkBuf (parseAck m1.k sn)) sn ts
   unfold inAck
   simp only []
-  refine ⟨f1.trans a1, f2.trans a2, f3.trans a3, ?_⟩
-  rw [f4, a4]
+  exact ⟨f1.trans (b1.trans a1), f2.trans (b3.trans a2), f3.trans (b4.trans a3), by rw [f4, b2]⟩
+
+/-- the instrumented `parse_ack` + `shrink_buf` of the ACK branch, erased -/
+theorem ackO_er (k : Kcp) (sn : U32) (u : SegsG) (hu : k.snd_buf = er u.l) :
+    er (dropAckedO (if itimediff sn k.snd_una < 0 ∨ itimediff sn k.snd_nxt ≥ 0 then u else ackLoopO sn u.l u.g).l
+        (if itimediff sn k.snd_una < 0 ∨ itimediff sn k.snd_nxt ≥ 0 then u else ackLoopO sn u.l u.g).g).l =
+      dropAcked (parseAck k sn).snd_buf := by
+  rw [dropAckedO_er, (parseAck_queues k sn).2.2.2]
   split
-  · rfl
-  · exact ackLoop_length _ _
+  · rw [hu]
+  · rw [ackLoopO_er, hu]
+
+/-- the instrumented `parse_una` + `shrink_buf` at the head of the loop body, erased -/
+theorem unaShrinkO_er (regular : Bool) (wnd : BitVec 16) (una : U32) {st : InLoopO} (h : st.m.k.snd_buf = er st.sb) :
+    (inSt1 regular wnd una st.m).k.snd_buf =
+      er (dropAckedO (unaO una st.sb st.gh).l (unaO una st.sb st.gh).g).l := by
+  rw [(inSt1_queues regular wnd una st.m).2.1, dropAckedO_er, unaO_er, h]
 
 theorem parseDataO_er (k k0 : Kcp) (s : Seg) (rb rq : List SegO) (g : Ghost)
     (hn : k0.rcv_nxt = k.rcv_nxt) (hw : k0.rcv_wnd = k.rcv_wnd)
@@ -420,8 +456,7 @@ theorem inBody_snd_queue (regular : Bool) (data : Bytes) (m : InLoop) :
 theorem inBodyO_sync (regular : Bool) (data : Bytes) {st : InLoopO} (h : SyncL st) :
     SyncL (inBodyO regular data st) := by
   obtain ⟨_, s2, s3, s4⟩ := inSt1_queues regular (rd16 data 6) (rd32 data 16) st.m
-  have hu : (inSt1 regular (rd16 data 6) (rd32 data 16) st.m).k.snd_buf = er (unaO (rd32 data 16) st.sb st.gh).l := by
-    rw [s2, unaO_er, h.sb]
+  have hu := unaShrinkO_er regular (rd16 data 6) (rd32 data 16) h.sb
   unfold inBodyO
   simp only []
   split
@@ -433,10 +468,7 @@ theorem inBodyO_sync (regular : Bool) (data : Bytes) {st : InLoopO} (h : SyncL s
     refine ⟨?_, ?_, ?_⟩
     · show (inBody regular data st.m).k.snd_buf = er (reattach (inBody regular data st.m).k.snd_buf _)
       rw [er_reattach]
-      rw [hb, a4, hu, er_length]
-      split
-      · rfl
-      · rw [← er_length (ackLoopO _ _ _).l, ackLoopO_er, ackLoop_length, er_length]
+      rw [hb, a4, ← ackO_er _ _ _ hu, er_length]
     · show (inBody regular data st.m).k.rcv_buf = er st.rb
       rw [hb, a2, s3]; exact h.rb
     · show (inBody regular data st.m).k.rcv_queue = er st.rq
@@ -468,7 +500,7 @@ theorem inBodyO_sync (regular : Bool) (data : Bytes) {st : InLoopO} (h : SyncL s
           { conv := rd32 data 0, cmd := BitVec.ofNat 8 (byteAt data 4), frg := BitVec.ofNat 8 (byteAt data 5), wnd := rd16 data 6,
             ts := rd32 data 8, sn := rd32 data 12, una := rd32 data 16,
             data := (data.drop IKCP_OVERHEAD).take (rd32 data 20).toNat }
-          st.rb st.rq (unaO (rd32 data 16) st.sb st.gh).g rfl rfl (s3.trans h.rb) (s4.trans h.rq)
+          st.rb st.rq (dropAckedO (unaO (rd32 data 16) st.sb st.gh).l (unaO (rd32 data 16) st.sb st.gh).g).g rfl rfl (s3.trans h.rb) (s4.trans h.rq)
         refine ⟨?_, ?_, ?_⟩
         · show (inBody regular data st.m).k.snd_buf = _
           rw [hb]; exact d2.trans hu
